@@ -53,3 +53,33 @@ for cfg, tier in CMS_CFGS:
         K("h_cms::cms_merge_" + cfg, tier, "merge of two arbitrary valid tables: cell-wise sum, bounds carried over", cfg),
         K("h_cms::cms_clear_clone_" + cfg, tier, "clear resets to the zero table (history restarts)", cfg),
     ]
+
+# --------------------------------------------------------------------------- C17
+p = prop("C17",
+         functions=["HyperLogLog::{with_hash,with_registers_and_hash,add,add_hashed,registers,merge,clear,is_empty,b,m}"],
+         bounds="b = 4 (16 registers, arbitrary u8 contents), full 64-bit symbolic hash values; one step from any register vector",
+         outside=["precisions b = 5..18 in the Kani harnesses (engine M covers add_hashed for all b)", "count() accuracy (C03)"],
+         assumptions=COMMON_K_ASSUME + ["every register vector of length 2^b is a valid state (with_registers_and_hash accepts it)"])
+p["units"] += [
+    K("h_hll::hll_add_hashed_b4", "quick", "add_hashed(h): only register h&15 changes, to max(old, rank(h)); rank by independent bit-scan spec"),
+    K("h_hll::hll_add_is_add_hashed_b4", "quick", "add(x) == add_hashed(hash_one(x))"),
+    K("h_hll::hll_order_idempotence_b4", "quick", "two arbitrary hashes: order and repetition do not matter"),
+    K("h_hll::hll_reconstruct_b4", "quick", "with_registers_and_hash(b, registers().to_vec(), hasher) == original"),
+]
+# --------------------------------------------------------------------------- C18
+p = prop("C18",
+         functions=["ReservoirSampling::{new,add,reservoir,i,k,is_empty,clear}", "rand::Rng::gen_range (real sampler, wmul kernel stubbed)"],
+         bounds="k in {1,2,3}; i symbolic in [0, 2^20]; skip_until arbitrary <= 2^22; every RNG word arbitrary; one add from any valid state; plus 5 adds through the API at k=2",
+         outside=["k > 3", "i > 2^20 (i+g far from overflow below that)", "ln/floor float path uses CBMC's approximations (only no-panic and slot structure asserted on it)"],
+         assumptions=COMMON_K_ASSUME + ["RNG: every next_u32/next_u64 word arbitrary; <usize as WideningMultiply>::wmul stubbed to return (j,0) with arbitrary j<range (kills rand's rejection loop)",
+                                        "state invariant: len = min(i,k), ids distinct and < i, prefix order while i <= k"])
+p["units"] += [
+    K("h_reservoir::reservoir_step_k1", "quick", "one add from any valid state, k=1"),
+    K("h_reservoir::reservoir_step_k2", "quick", "one add from any valid state, k=2"),
+    K("h_reservoir::reservoir_step_k3", "quick", "one add from any valid state, k=3"),
+    K("h_reservoir::reservoir_fill_k1_i0", "quick", "fill phase, k=1, i=0"),
+    K("h_reservoir::reservoir_fill_k3_i0", "quick", "fill phase, k=3, i=0"),
+    K("h_reservoir::reservoir_fill_k3_i1", "quick", "fill phase, k=3, i=1"),
+    K("h_reservoir::reservoir_fill_k3_i2", "quick", "fill phase, k=3, i=2"),
+    K("h_reservoir::reservoir_api_prefix_k2", "quick", "new + 5 adds through the public API: prefix in order until the (k+1)-th add"),
+]
